@@ -8,7 +8,14 @@ from . import adeck, conv, core, t4file, tlc
 def run_deck(job):
     """Worker.  job = dict(tid, deck, opts[, with_witness]) -> trace record."""
     deck = job['deck']
-    text = job.get('text') or adeck.concretise(deck)
+    phi = job.get('phi')
+    real_points = None
+    if phi is not None:
+        # covariance: the converter sees the deck moved by phi, TLC the un-moved exact deck
+        text = adeck.concretise(adeck.moved_deck(deck, phi))
+        real_points = adeck.moved_points(deck['pts'], phi)
+    else:
+        text = job.get('text') or adeck.concretise(deck)
     res = conv.convert(text, job.get('opts', ()), encoding=job.get('encoding', 'utf-8'))
     rec = {'tid': job['tid'], 'result': res['result'], 'err': res['error'], 'text': text,
            'note': conv.note_cells(res['stdout']), 'warnings': res['warnings'][:3],
@@ -22,7 +29,8 @@ def run_deck(job):
         import hashlib
         rec['out_hash'] = hashlib.sha1(res['out'].encode()).hexdigest()[:12]
         t4 = t4file.parse(res['out'])
-        rec['file'] = t4file.project(t4, deck['pts'], with_witness=True)
+        rec['file'] = t4file.project(t4, deck['pts'], with_witness=(phi is None), real_points=real_points)
+        rec['file'].setdefault('wit', [])
         rec['file']['cinfo'] = adeck.composition_info(t4, deck)
         if job.get('keep_parsed'):
             rec['t4'] = t4
